@@ -2,11 +2,13 @@
 //
 //	bloom replay <behaviours.jsonl> <quick|thorough>
 //
-// Every behaviour (explicit additions and MatchTxAndUpdate calls, for an update mode and with or
-// without the side-chain tweak) is run on real filters of every size x hash-function count x
+// Every behaviour (explicit additions and MatchTxAndUpdate calls, for an update mode and with an
+// ordinary or the side-chain tweak) is run on real filters of every size x hash-function count x
 // tweak, built by LoadFilter, by NewFilter and through TxFilter.Load.  The spec is a one-sided
 // oracle: after every step every item of the spec's `added` set must match, and a transaction
-// the spec says must match has to.
+// the spec says must match has to.  In side-chain mode (tweak 0xffffffff) the verdict is also
+// compared exactly with the mode's rule evaluated on the real filter's own Matches(), and the
+// bit array must not change.
 package main
 
 import (
@@ -77,8 +79,13 @@ func newWorld() *world {
 			outs = append(outs, &common2.Output{AssetID: asset, Value: common.Fixed64(100 + k), ProgramHash: w.ph[p],
 				Type: common2.OTNone, Payload: &outputpayload.DefaultOutput{}})
 		}
-		w.txs[j+1] = functions.CreateTransaction(common2.TxVersion09, common2.TransferAsset, 0, &payload.TransferAsset{},
-			[]*common2.Attribute{}, ins, outs, 0, []*program.Program{})
+		if j+1 == 4 { // TxType(4) = "record" in the spec
+			w.txs[j+1] = functions.CreateTransaction(common2.TxVersion09, common2.Record, 0,
+				&payload.Record{Type: "verif", Content: []byte{1, 2, 3}}, []*common2.Attribute{}, ins, outs, 0, []*program.Program{})
+		} else {
+			w.txs[j+1] = functions.CreateTransaction(common2.TxVersion09, common2.TransferAsset, 0, &payload.TransferAsset{},
+				[]*common2.Attribute{}, ins, outs, 0, []*program.Program{})
+		}
 	}
 	return w
 }
@@ -119,6 +126,7 @@ type real struct {
 	tf    filter.TxFilter // through TxFilter (Load / Add / MatchConfirmed)
 	side  bool
 	empty bool
+	types map[common2.TxType]bool
 }
 
 type param struct {
@@ -147,6 +155,14 @@ func params(thorough bool) []param {
 	return ps
 }
 
+// isEmpty: the filter built from p has a zero-length bit array
+func (p param) isEmpty() bool {
+	if p.ctor {
+		return len(bloom.NewFilter(uint32(p.size), 0, p.fp).GetFilterLoadMsg().Filter) == 0
+	}
+	return p.size == 0
+}
+
 func flagsOf(mode string) uint8 {
 	switch mode {
 	case "all":
@@ -157,7 +173,7 @@ func flagsOf(mode string) uint8 {
 	return 0
 }
 
-func build(p param, tweak uint32, mode string) (r *real, pan interface{}) {
+func build(p param, tweak uint32, mode string, types []common2.TxType) (r *real, pan interface{}) {
 	defer func() {
 		if x := recover(); x != nil {
 			pan = x
@@ -169,16 +185,21 @@ func build(p param, tweak uint32, mode string) (r *real, pan interface{}) {
 		r.f = bloom.NewFilter(uint32(p.size), tweak, p.fp)
 		fl = r.f.GetFilterLoadMsg()
 		fl.Flags = flagsOf(mode)
+		fl.TxTypes = types
 	} else {
-		fl = &msg.FilterLoad{Filter: make([]byte, p.size), HashFuncs: p.funcs, Tweak: tweak, Flags: flagsOf(mode)}
+		fl = &msg.FilterLoad{Filter: make([]byte, p.size), HashFuncs: p.funcs, Tweak: tweak, Flags: flagsOf(mode), TxTypes: types}
 		r.f = bloom.LoadFilter(fl)
 	}
 	buf := new(bytes.Buffer)
-	cp := &msg.FilterLoad{Filter: append([]byte{}, fl.Filter...), HashFuncs: fl.HashFuncs, Tweak: fl.Tweak, Flags: fl.Flags}
+	cp := &msg.FilterLoad{Filter: append([]byte{}, fl.Filter...), HashFuncs: fl.HashFuncs, Tweak: fl.Tweak, Flags: fl.Flags, TxTypes: types}
 	if err := cp.Serialize(buf); err != nil {
 		panic(err)
 	}
 	r.empty = len(fl.Filter) == 0
+	r.types = map[common2.TxType]bool{}
+	for _, t := range types {
+		r.types[t] = true
+	}
 	r.tf = bloom.NewTxFilter()
 	if err := r.tf.Load(buf.Bytes()); err != nil {
 		panic(err)
@@ -224,13 +245,25 @@ func main() {
 		mode := rep.Str(b[0], "mode")
 		side := rep.Bool(b[0], "side")
 		tws := tweaks
+		var types []common2.TxType
 		if side {
 			tws = []uint32{0xffffffff}
+			for _, t := range rep.List(b[0], "listed") {
+				switch t {
+				case "transfer":
+					types = append(types, common2.TransferAsset)
+				case "record":
+					types = append(types, common2.Record)
+				}
+			}
 		}
 		for _, p := range ps {
+			if side && (p.isEmpty() == rep.Bool(b[0], "bits")) {
+				continue // side-chain behaviours state whether the filter has a bit array
+			}
 			for _, tw := range tws {
 				nRuns++
-				r, pan := build(p, tw, mode)
+				r, pan := build(p, tw, mode, types)
 				if pan != nil {
 					rep.Violation("C39:panic:build", fmt.Sprintf("creating filter %s panicked: %v", p.name, pan), b)
 					continue
@@ -293,6 +326,20 @@ func runBehaviour(w *world, r *real, b rep.Behaviour, mode string) (steps, queri
 			j := rep.Int(a, "tx")
 			tx := w.txs[j]
 			var got, got2 bool
+			// side-chain rule evaluated on the real filter's own membership answers, before the call
+			var ruleReal bool
+			var before []byte
+			if r.side {
+				before = append([]byte{}, r.f.GetFilterLoadMsg().Filter...)
+				ruleReal = r.types[tx.TxType()]
+				if !r.empty {
+					for _, o := range tx.Outputs() {
+						if r.f.Matches(o.ProgramHash[:]) {
+							ruleReal = true
+						}
+					}
+				}
+			}
 			pan := guard(func() {
 				got = r.f.MatchTxAndUpdate(tx)
 				got2 = r.tf.MatchConfirmed(tx)
@@ -301,37 +348,38 @@ func runBehaviour(w *world, r *real, b rep.Behaviour, mode string) (steps, queri
 				rep.Violation("C39:panic:matchtx", fmt.Sprintf("MatchTxAndUpdate on filter %s panicked: %v", r.name, pan), ctx)
 				return
 			}
-			must, pmust, why := rep.Bool(st, "must"), rep.Bool(st, "pmust"), rep.Str(st, "why")
+			must, why := rep.Bool(st, "must"), rep.Str(st, "why")
 			for k, g := range []bool{got, got2} {
 				api := []string{"Filter.MatchTxAndUpdate", "TxFilter.MatchConfirmed"}[k]
 				switch {
-				case must && !g && r.side && r.empty:
-					// side-chain mode skips the outputs as well when the filter has no bits
-					rep.Violation("C39:sidechain-tweak:output", fmt.Sprintf("%s on an empty filter loaded with tweak 0xffffffff does not match "+
-						"transaction T%d although it pays to a watched item (filter %s)", api, j, r.name), ctx)
+				case must && !g && r.side:
+					rep.Violation("C39:sidechain-mode:missed-"+why, fmt.Sprintf("%s on a side-chain filter (tweak 0xffffffff, types %v) does not match "+
+						"transaction T%d although the mode's rule says it must (%s) (filter %s)", api, rep.List(st, "listed"), j, why, r.name), ctx)
+					return
 				case must && !g:
 					rep.Violation("C39:false-negative:tx-"+why, fmt.Sprintf("%s does not match transaction T%d although a watched item is its %s "+
 						"(filter %s, update mode %s)", api, j, why, r.name, mode), ctx)
 					return
-				case pmust && !g && r.side:
-					rep.Violation("C39:sidechain-tweak:"+why, fmt.Sprintf("%s on a filter loaded with tweak 0xffffffff does not match transaction T%d "+
-						"although a watched item is its %s: the tweak value switches the filter to output-only matching without updates (filter %s)",
-						api, j, why, r.name), ctx)
-				case !pmust && g:
+				case r.side && g != ruleReal:
+					rep.Violation("C39:sidechain-mode:verdict", fmt.Sprintf("%s on a side-chain filter (tweak 0xffffffff, types %v) returns %v for "+
+						"transaction T%d; the mode's rule (type listed, or an output's program hash matches a non-empty filter) gives %v (filter %s)",
+						api, rep.List(st, "listed"), g, j, ruleReal, r.name), ctx)
+					return
+				case !must && g:
 					unforced++
 				}
+			}
+			if r.side && !bytes.Equal(before, r.f.GetFilterLoadMsg().Filter) {
+				rep.Violation("C39:sidechain-mode:updated", fmt.Sprintf("MatchTxAndUpdate changed the bit array of a side-chain filter (tweak 0xffffffff) "+
+					"for transaction T%d; the mode never updates (filter %s)", j, r.name), ctx)
+				return
 			}
 		default:
 			rep.Mismatch("unknown action "+st.Act(), ctx)
 			return
 		}
 		// projection: everything the spec says is in the filter must match
-		addedNow := rep.List(st, "added")
-		inAdded := map[string]bool{}
-		for _, x := range addedNow {
-			inAdded[fmt.Sprint(x)] = true
-		}
-		items := append([]interface{}{}, rep.List(st, "want")...)
+		items := append([]interface{}{}, rep.List(st, "added")...)
 		sort.Slice(items, func(i, k int) bool { return fmt.Sprint(items[i]) < fmt.Sprint(items[k]) })
 		for _, x := range items {
 			kind, data, op, err := w.item(x)
@@ -352,18 +400,8 @@ func runBehaviour(w *world, r *real, b rep.Behaviour, mode string) (steps, queri
 				rep.Violation("C39:panic:matches", fmt.Sprintf("Matches on filter %s panicked: %v", r.name, pan), ctx)
 				return
 			}
-			if m {
-				continue
-			}
-			if inAdded[fmt.Sprint(x)] {
+			if !m {
 				rep.Violation("C39:false-negative:"+kind, fmt.Sprintf("filter %s does not match the %s %v that is in it (update mode %s)", r.name, kind, x, mode), ctx)
-				return
-			}
-			if r.side {
-				rep.Violation("C39:sidechain-tweak:update", fmt.Sprintf("a filter loaded with tweak 0xffffffff was not updated with outpoint %v of a matched "+
-					"output (update mode %s, filter %s)", x, mode, r.name), ctx)
-			} else {
-				rep.Mismatch(fmt.Sprintf("item %v is wanted but not added outside the side-chain mode", x), ctx)
 				return
 			}
 		}
